@@ -195,6 +195,16 @@ func (env *CEnv) eval(e *CExpr) SV {
 			}
 		}
 		return n.eval(e.X)
+	case "deref":
+		pv := env.eval(e.X)
+		if pv.K != KRef || pv.T == nil || pv.Ty == nil {
+			env.errf("cannot dereference %s", e.X)
+		}
+		pt, ok := pv.Ty.Underlying().(*types.Pointer)
+		if !ok {
+			env.errf("dereference of non-pointer %s", e.X)
+		}
+		return env.x.loadFrom(nil, env.cur, &Loc{Ref: pv.T, RefTy: pt.Elem()}, false)
 	case "unop":
 		switch e.Str {
 		case "!":
